@@ -3,7 +3,7 @@
     index and the txHeight cache hold exactly what they should. *)
 From Coq Require Import List ZArith NArith Bool Lia.
 From C33 Require Import C28.Model C28.Spec C28.Defs.
-From C33 Require Import C28.ProofsLib C28.ProofsChk C28.ProofsInv.
+From C33 Require Import C28.ProofsLib C28.ProofsGrp C28.ProofsChk C28.ProofsInv.
 Import ListNotations.
 Open Scope Z_scope.
 
@@ -94,7 +94,7 @@ Section Steps.
         intro H2. exact (nd_app_disj _ _ _ h Hnd H2 H).
     - apply (disc_cache b q r i ca). exact HI.
     - intros x Hx. apply (inv_time c U _ HI). cbn [chain]. right. exact Hx.
-    - intros x t Hx Hh Ht. apply (inv_chk c U _ HI); [cbn [chain]; right; exact Hx | exact Hh | exact Ht].
+    - intros x Hx Hh. apply (inv_okl c U _ HI); [cbn [chain]; right; exact Hx | exact Hh].
     - intros x Hx Hh. apply (inv_gen c U _ HI); [cbn [chain]; right; exact Hx | exact Hh].
   Qed.
 
@@ -115,14 +115,14 @@ Section Steps.
     destruct (sig_stage pool (b_txs b)); cbn [negb]; [|exact HI].
     destruct (Nat.eqb_spec (length (check_dup s (b_txs b))) (length (b_txs b))) as [Ed|Ed];
       cbn [negb]; [|exact HI].
-    destruct (forallb (check_tx c (b_h b) (b_time b)) (b_txs b)) eqn:Ef; cbn [negb]; [|exact HI].
+    destruct (all_true (exec_rc c (b_h b) (b_time b) (b_txs b))) eqn:Ef; cbn [negb]; [|exact HI].
     destruct (Z.gtb_spec (parent_time s) (b_time b)) as [Et|Et]; [exact HI|].
     assert (HA : AttOK c U s b).
     { apply check_dup_len_eq in Ed. constructor.
       - exact El.
       - rewrite <- Ed. apply check_dup_nd.
       - intros t Ht. rewrite <- Ed in Ht. apply check_dup_In in Ht. tauto.
-      - intros t Ht. rewrite forallb_forall in Ef. apply Ef. exact Ht.
+      - apply exec_okl. exact Ef.
       - exact Hincl.
       - exact Et. }
     destruct (b_txs b); [exact HI|]. cbn [fst].
@@ -137,15 +137,15 @@ Section Steps.
     intros s b HI Hincl. unfold connect_self. cbv zeta.
     destruct (linked s b) eqn:El; cbn [negb]; [|exact HI].
     destruct (Z.gtb_spec (parent_time s) (b_time b)) as [Et|Et]; [exact HI|].
-    remember (filter (check_tx c (b_h b) (b_time b)) (check_dup s (b_txs b))) as kept eqn:Ek.
+    remember (keep (exec_rc c (b_h b) (b_time b) (check_dup s (b_txs b))) (check_dup s (b_txs b))) as kept eqn:Ek.
     assert (HA : AttOK c U s (mkBlk (b_id b) (b_par b) (b_h b) (b_time b) kept)).
     { constructor; cbn [b_txs b_h b_time].
       - exact El.
-      - rewrite Ek. apply nd_map_filter. apply check_dup_nd.
-      - intros t Ht. rewrite Ek in Ht. apply filter_In in Ht. destruct Ht as [Ht _].
+      - rewrite Ek. apply keep_nd. apply check_dup_nd.
+      - intros t Ht. rewrite Ek in Ht. apply keep_In in Ht.
         apply check_dup_In in Ht. tauto.
-      - intros t Ht. rewrite Ek in Ht. apply filter_In in Ht. tauto.
-      - intros t Ht. rewrite Ek in Ht. apply filter_In in Ht. destruct Ht as [Ht _].
+      - rewrite Ek. apply keep_okl.
+      - intros t Ht. rewrite Ek in Ht. apply keep_In in Ht.
         apply check_dup_In in Ht. apply Hincl. tauto.
       - exact Et. }
     destruct kept as [|t0 k0]; [exact HI|]. cbn [fst].
@@ -191,10 +191,27 @@ Proof.
   intros c g ops Hc Hg Hh. pose proof (all_inv c g ops Hc Hg Hh) as HI.
   unfold spec_checked. apply forallb_forall. intros x Hx.
   destruct (Z.leb_spec (b_h x) 0) as [E|E]; cbn [orb]; [reflexivity|].
-  apply forallb_forall. intros t Ht. apply spec_of_check.
-  - exact E.
-  - exact (inv_time _ _ _ HI x Hx).
-  - exact (inv_chk _ _ _ HI x t Hx E Ht).
+  exact (okl_spec_block c (b_h x) (b_time x) (b_txs x) E (inv_time _ _ _ HI x Hx) (inv_okl _ _ _ HI x Hx E)).
+Qed.
+
+(** every transaction of every non-genesis block, group members included, is allowed by its own
+    Expire at the block's height and time *)
+Theorem members_unexpired_all : forall c g ops, cfg_ok c -> gen_ok g -> hash_ok (ops_txs ops) ->
+  forall b t, In b (chain (run c (init g) ops)) -> 0 < b_h b -> In t (b_txs b) ->
+    spec_live c (texp t) (b_h b) (b_time b) = true.
+Proof.
+  intros c g ops Hc Hg Hh b t Hb Hpos Ht. pose proof (all_inv c g ops Hc Hg Hh) as HI.
+  apply live_of_not_expire. exact (inv_live c _ _ b t HI Hb Hpos Ht).
+Qed.
+
+(** a transaction with a GroupCount never stands on the chain without its whole group *)
+Theorem members_whole_all : forall c g ops, cfg_ok c -> gen_ok g -> hash_ok (ops_txs ops) ->
+  forall b t, In b (chain (run c (init g) ops)) -> In t (b_txs b) -> tgc t <> 0 ->
+    exists pre grp post, b_txs b = pre ++ grp ++ post /\ In t grp /\ spec_group c grp = true.
+Proof.
+  intros c g ops Hc Hg Hh b t Hb Ht Hne. pose proof (all_inv c g ops Hc Hg Hh) as HI.
+  pose proof (inv_txs_pos c _ _ b t HI Hb Ht) as Hpos.
+  exact (okl_whole c (b_h b) (b_time b) (b_txs b) (inv_okl _ _ _ HI b Hb Hpos) t Ht Hne).
 Qed.
 
 Theorem cache_exact_all : forall c g ops, cfg_ok c -> gen_ok g -> hash_ok (ops_txs ops) ->
